@@ -596,8 +596,14 @@ func ReadWeatherCZ(VWDAT string, startyear int, g *GlobalVarsMain, s *WeatherDat
 func (s *WeatherDataShared) transformWeatherData(yrz int, corr corrArr) {
 	for y := 0; y < yrz; y++ {
 		T := s.MaxYearDays[y]
+		leapYear := daysInYear(s.JAR[y]) == 366
 		for index := 0; index < T; index++ {
-			cor := corr.getCorrValue(index + 1)
+			// getCorrValue knows the month boundaries of a non-leap year
+			doy := index + 1
+			if leapYear && doy > 59 {
+				doy--
+			}
+			cor := corr.getCorrValue(doy)
 			// water model for rivers calculates in cm, so mm is transformed to cm by dividing by 10
 
 			// correction of precipitation (turn on/off in config)
